@@ -545,6 +545,10 @@ func (p *OAuthProxy) Proxy(rw http.ResponseWriter, req *http.Request) {
 	// If the request is explicitly whitelisted, we skip authentication
 	if p.IsWhitelistedRequest(req) {
 		tags = append(tags, "auth_type:whitelisted")
+		// the request is proxied without a session: never let client-chosen identity headers through
+		for _, header := range []string{"X-Forwarded-User", "X-Forwarded-Email", "X-Forwarded-Groups", "X-Forwarded-Access-Token"} {
+			req.Header.Del(header)
+		}
 	} else {
 		tags = append(tags, "auth_type:authenticated")
 		err = p.Authenticate(rw, req)
@@ -741,6 +745,8 @@ func (p *OAuthProxy) Authenticate(rw http.ResponseWriter, req *http.Request) (er
 
 	req.Header.Set("X-Forwarded-User", session.User)
 
+	// only the proxy asserts the access token header, and only when configured to
+	req.Header.Del("X-Forwarded-Access-Token")
 	if p.upstreamConfig.PassAccessToken && session.AccessToken != "" {
 		req.Header.Set("X-Forwarded-Access-Token", session.AccessToken)
 	}
